@@ -46,3 +46,11 @@ def register(add):
                  X('bn_bits'), X('bn_mod_pre_monty'), X('bn_set_dig'), X('bn_mod_monty_conv'), X('bn_mod_monty_back'), X('bn_copy'), X('bn_grow')],
         note='ring-level event monitor; callees abstract and trusted to be constant-time as units; pre: m != 1, b > 0',
         bound_note='all exponent bit lengths 1..4096: the ladder loop is closed by a loop contract')
+    F = lambda f: '%s/%s_fx' % (f, f)
+    add('fp_exp_monty', ['C20'], 'fp_exp_monty', sources=['src/fp/relic_fp_exp.c'], headers=['ct_fpexp.h', 'ct_fpexp_state.h'],
+        conf='base', route='proof', loops=True, unwind=40, flags=['--object-bits', '10'], timeout=900,
+        decls='dig_t *c, *a; bn_st *b;', call='fp_exp_monty(c, a, b)',
+        replace=[F('dv_swap_sec'), F('fp_mul_integ'), F('fp_sqr_integ'), F('bn_get_bit'), F('bn_is_zero'), F('bn_sign'), F('bn_bits'), F('fp_set_dig'), F('fp_copy'), F('fp_inv')],
+        remove_bodies=['fp_exp_basic', 'fp_exp_slide', 'fp_exp_dig'],
+        note='field-level event monitor; callees abstract and trusted to be constant-time as units; pre: b > 0',
+        bound_note='all exponent bit lengths 1..4096: the ladder loop is closed by a loop contract')
